@@ -132,6 +132,8 @@ type c26World struct {
 	sym     map[string]string // symbolic -> actual hostname
 	nGen    int
 	owned   [2]map[string]bool // model: symbolic hostnames registered to each client
+
+	lastChanged bool // the last applied op changed the DHT
 }
 
 func c26ServerChord(i int) *protocol.Node {
@@ -341,6 +343,7 @@ func (w *c26World) apply(o c26Op) (problems []string, applicable bool, success b
 	success = err == nil
 	after := w.view(o.Who, host)
 	afterAll := w.kv.snapshot()
+	w.lastChanged = !snapEqual(beforeAll, afterAll)
 
 	// nothing outside (routes of host, caller's registrations, custom binding of host) may change
 	if !snapEqual(before.rest, after.rest) {
@@ -533,6 +536,44 @@ func (w *c26World) run(j c26Job) c26Res {
 	return r
 }
 
+// runState checks every op of ops from the state reached by path. The world is rebuilt (reset +
+// replay of path) only after an op that changed the DHT or the model; ops without effect are
+// applied one after the other on the same, verified-unchanged state.
+func (w *c26World) runState(path []c26Op, ops []c26Op) []c26Res {
+	out := make([]c26Res, len(ops))
+	dirty := true
+	for i, o := range ops {
+		if dirty {
+			w.reset()
+			bad := false
+			for _, po := range path {
+				p, ok, _ := w.apply(po)
+				if !ok || len(p) > 0 {
+					bad = true
+					break
+				}
+			}
+			if bad {
+				out[i] = c26Res{prefixBad: true}
+				continue
+			}
+			dirty = false
+		}
+		nGen := w.nGen
+		ownedSig := fmt.Sprint(w.owned)
+		p, ok, succ := w.apply(o)
+		r := c26Res{applicable: ok, success: succ, problems: p}
+		if ok {
+			r.state = w.state()
+			if w.lastChanged || w.nGen != nGen || fmt.Sprint(w.owned) != ownedSig || len(p) > 0 {
+				dirty = true
+			}
+		}
+		out[i] = r
+	}
+	return out
+}
+
 func pathStr(p []c26Op, o c26Op) string {
 	var s []string
 	for _, x := range p {
@@ -546,6 +587,7 @@ func c26(c *report.Check) {
 	depth := 3
 	if c.Thorough() {
 		depth = 4
+		c26ExpandServers = []string{"1", "12", "21", "123", "321", "11", "1231", "s", "n1"}
 	}
 	sh := c26NewShared()
 	ops := c26AllOps()
@@ -559,6 +601,8 @@ func c26(c *report.Check) {
 	worlds[0].reset()
 	seen := map[string]bool{worlds[0].state(): true}
 	frontier := [][]c26Op{nil}
+	sink := newViolSink(c)
+	defer sink.flush()
 	dist := report.NewDistinct(8)
 	transitions, successes, denied, failedOwned, histories := 0, 0, 0, 0, 0
 	perKind := map[string]int{}
@@ -576,8 +620,8 @@ func c26(c *report.Check) {
 			wg.Add(1)
 			go func() {
 				defer wg.Done()
-				for i := wi; i < len(jobs); i += workers {
-					res[i] = worlds[wi].run(jobs[i])
+				for fi := wi; fi < len(frontier); fi += workers {
+					copy(res[fi*len(ops):(fi+1)*len(ops)], worlds[wi].runState(frontier[fi], ops))
 				}
 			}()
 		}
@@ -610,7 +654,7 @@ func c26(c *report.Check) {
 				denied++
 			}
 			for _, p := range r.problems {
-				c.Violation("c26:"+pathStr(j.path, j.op)+":"+p, fmt.Sprintf("history %s: %s", pathStr(j.path, j.op), p), map[string]any{"path": j.path, "op": j.op})
+				sink.add("c26:"+pathStr(j.path, j.op)+":"+p, fmt.Sprintf("history %s: %s", pathStr(j.path, j.op), p), map[string]any{"path": j.path, "op": j.op})
 			}
 			if len(r.problems) == 0 && c26Expands(j.op) && !seen[r.state] {
 				seen[r.state] = true
